@@ -41,6 +41,11 @@ class ShapeError(Exception):
     pass
 
 
+class TypeViolation(Exception):
+    """an object of a loaded history does not have the type the public API promises (e.g. it stayed a
+    plain dict because its class path was not resolved)"""
+
+
 # ----------------------------------------------------------------------------------------
 # canonical keys of the payloads the history codec passes through
 # ----------------------------------------------------------------------------------------
@@ -70,9 +75,12 @@ def op_key(x):
             cp = t.get('_class_path')
             if cp is not None:
                 if cp not in _RESOLVABLE:
-                    _RESOLVABLE[cp] = observed_class(cp) is not None
-                if not _RESOLVABLE[cp]:
+                    obj = real_class(cp)
+                    _RESOLVABLE[cp] = None if obj is None else '%s/%s' % (getattr(obj, '__module__', '?'), getattr(obj, '__qualname__', '?'))
+                if _RESOLVABLE[cp] is None:
                     t = {k: v for k, v in t.items() if k != '_class_path'}
+                else:   # an earlier name and the current name of one object are one key
+                    t = dict(t, _class_path=_RESOLVABLE[cp])
             return {k: norm(v) for k, v in t.items()}
         if isinstance(t, list):
             return [norm(v) for v in t]
@@ -183,12 +191,12 @@ def export_hist(history, tok):
 
     def _parent_objs(ind):
         if not isinstance(ind, Individual):
-            raise ShapeError('not an Individual: %r' % type(ind))
+            raise TypeViolation('a member / parent is %s, not an Individual' % type(ind).__name__)
         po = ind.parent_operator
         if po is None:
             return []
         if not isinstance(po, ParentOperator):
-            raise ShapeError('parent_operator is %r' % type(po))
+            raise TypeViolation('parent_operator is %s, not a ParentOperator' % type(po).__name__)
         return [p for p in po.parent_individuals if not isinstance(p, str)]
 
     for g in history.generations:
@@ -204,13 +212,13 @@ def export_hist(history, tok):
     gens = []
     for g in history.generations:
         if not hasattr(g, 'generation_num'):
-            raise ShapeError('generation is %r' % type(g))
+            raise TypeViolation('generation is %s, not a Generation' % type(g).__name__)
         gens.append({'num': g.generation_num, 'label': tok('label', g.label), 'meta': tok('gmeta', jkey(g.metadata)),
                      'members': [index[id(i)] for i in g]})
     snaps = [[index[id(i)] for i in a] for a in history.archive_history]
     o = history.objective
     if not isinstance(o, ObjectiveInfo):
-        raise ShapeError('objective is %r' % type(o))
+        raise TypeViolation('objective is %s, not an ObjectiveInfo' % type(o).__name__)
     return {'heap': heap, 'obj': {'multi': bool(o.is_multi_objective), 'names': [tok('name', str(n)) for n in o.metric_names]},
             'gens': gens, 'snaps': snaps, 'tuning': tok('tuning', graph_key_mem(history.tuning_result)),
             'dir': tok('dir', str(history._default_save_dir)), '_objects': order}
@@ -241,25 +249,57 @@ CUR = {
     'gen': 'golem.core.optimisers.opt_history_objects.generation/Generation',
     'obj': 'golem.core.optimisers.objective.objective/ObjectiveInfo',
 }
-LEGACY_OF = {
-    CUR['hist']: 'fedot.core.optimisers.opt_history/OptHistory',
-    CUR['ind']: 'fedot.core.optimisers.gp_comp.individual/Individual',
-    CUR['pop']: 'fedot.core.optimisers.gp_comp.individual/ParentOperator',
-    'golem.core.dag.linked_graph_node/LinkedGraphNode': 'fedot.core.dag.graph_node/GraphNode',
-    'golem.core.dag.linked_graph/LinkedGraph': 'fedot.core.dag.graph_operator/GraphOperator',
-    'golem.core.dag.linked_graph/LinkedGraph._empty_postprocess': 'fedot.core.dag.graph_operator/GraphOperator._empty_postprocess',
-    # through the module map only
-    CUR['gen']: 'fedot.core.optimisers.opt_history_objects.generation/Generation',
-    CUR['obj']: 'fedot.core.optimisers.objective.objective/ObjectiveInfo',
-    'golem.core.optimisers.fitness.fitness/SingleObjFitness': 'fedot.core.optimisers.fitness.fitness/SingleObjFitness',
-    'golem.core.optimisers.fitness.multi_objective_fitness/MultiObjFitness': 'fedot.core.optimisers.fitness.multi_objective_fitness/MultiObjFitness',
-    'golem.core.dag.graph_delegate/GraphDelegate': 'fedot.core.dag.graph_delegate/GraphDelegate',
+GD = 'golem.core.dag.graph_delegate/GraphDelegate'
+LGN = 'golem.core.dag.linked_graph_node/LinkedGraphNode'
+SOF = 'golem.core.optimisers.fitness.fitness/SingleObjFitness'
+MOF = 'golem.core.optimisers.fitness.multi_objective_fitness/MultiObjFitness'
+ENUM = 'golem.core.optimisers.genetic.operators.base_mutations/MutationTypesEnum'
+# how earlier releases named the classes of a current save.  'sub': keys of LEGACY_CLASS_PATHS and classes in
+# SUB-modules of the LEGACY_MODULE_PATHS keys; 'direct': classes living directly IN a module that is a key of
+# LEGACY_MODULE_PATHS (class path 'K/Class'), for every key that has such a class
+LEGACY_VARIANTS = {
+    'sub': {
+        CUR['hist']: 'fedot.core.optimisers.opt_history/OptHistory',
+        CUR['ind']: 'fedot.core.optimisers.gp_comp.individual/Individual',
+        CUR['pop']: 'fedot.core.optimisers.gp_comp.individual/ParentOperator',
+        LGN: 'fedot.core.dag.graph_node/GraphNode',
+        'golem.core.dag.linked_graph/LinkedGraph': 'fedot.core.dag.graph_operator/GraphOperator',
+        'golem.core.dag.linked_graph/LinkedGraph._empty_postprocess': 'fedot.core.dag.graph_operator/GraphOperator._empty_postprocess',
+        CUR['gen']: 'fedot.core.optimisers.opt_history_objects.generation/Generation',
+        CUR['obj']: 'fedot.core.optimisers.objective.objective/ObjectiveInfo',
+        SOF: 'fedot.core.optimisers.fitness.fitness/SingleObjFitness',
+        MOF: 'fedot.core.optimisers.fitness.multi_objective_fitness/MultiObjFitness',
+        GD: 'fedot.core.dag.graph_delegate/GraphDelegate',
+        ENUM: 'fedot.core.optimisers.gp_comp.operators.base_mutations/MutationTypesEnum',
+        'golem.core.log/default_log': 'fedot.core.log/default_log',
+        'golem.core.adapter.adapt_registry/register_native': 'fedot.core.adapter.adapt_registry/register_native',
+        'golem.core.dag.graph_utils/nodes_from_layer': 'fedot.core.dag.graph_utils/nodes_from_layer',
+        'golem.utilities.data_structures/ensure_wrapped_in_sequence': 'fedot.core.utilities.data_structures/ensure_wrapped_in_sequence',
+    },
+    'direct': {
+        CUR['hist']: 'fedot.core.optimisers.opt_history_objects.opt_history/OptHistory',
+        CUR['ind']: 'fedot.core.optimisers.opt_history_objects.individual/Individual',
+        CUR['pop']: 'fedot.core.optimisers.opt_history_objects.parent_operator/ParentOperator',
+        CUR['gen']: 'fedot.core.optimisers.opt_history_objects.generation/Generation',
+        CUR['obj']: 'fedot.core.optimisers.objective.objective/ObjectiveInfo',     # module = key
+        GD: 'fedot.core.optimisers.graph/OptGraph',                                 # module = key
+        LGN: 'fedot.core.optimisers.graph/OptNode',                                 # module = key
+        SOF: 'fedot.core.optimisers.fitness/SingleObjFitness',                      # module = key
+        MOF: 'fedot.core.optimisers.fitness/MultiObjFitness',                       # module = key
+        'golem.core.log/default_log': 'fedot.core.log/default_log',                 # module = key
+        'golem.core.adapter.adapt_registry/register_native': 'fedot.core.adapter/register_native',   # module = key
+        ENUM: 'fedot.core.optimisers.gp_comp.operators.base_mutations/MutationTypesEnum',
+        'golem.core.dag.graph_utils/nodes_from_layer': 'fedot.core.dag.graph_utils/nodes_from_layer',
+        'golem.utilities.data_structures/ensure_wrapped_in_sequence': 'fedot.core.utilities.data_structures/ensure_wrapped_in_sequence',
+    },
 }
+LEGACY_OF = LEGACY_VARIANTS['sub']
+LEGACY_NAMES = {kind: {v[CUR[kind]] for v in LEGACY_VARIANTS.values() if CUR[kind] in v} for kind in CUR}
 
 
 def _cp_ok(t, kind, legacy):
     cp = t.get('_class_path')
-    return cp == CUR[kind] or (legacy and cp == LEGACY_OF[CUR[kind]])
+    return cp == CUR[kind] or (legacy and cp in LEGACY_NAMES[kind])
 
 
 def parse_ehist(text, tok, legacy=False):
@@ -466,7 +506,10 @@ def observe(history, tok=None, pre_text=None, legacy=False):
         raise ImplRaised('load of the saved history raises %s: %s' % (type(ex).__name__, ex))
     if not isinstance(loaded, OptHistory):
         raise ShapeError('load returned %r' % type(loaded))
-    o['loaded'] = export_hist(loaded, tok)
+    try:
+        o['loaded'] = export_hist(loaded, tok)
+    except TypeViolation as ex:
+        raise ImplRaised('the loaded history has an object of the wrong type: %s' % ex)
     try:
         text2 = loaded.save()
         o['json2'] = parse_ehist(text2, tok)
@@ -605,6 +648,18 @@ def mk_meta(rng):
     return rng.choice([{}, {}, {'k': 1}, {'note': 'x', 'vals': [1, 2.5, None], 'nested': {'a': True}}, {'b': 'text', 'a': 0}])
 
 
+def mk_operator(x):
+    """operator entry of a recipe: a plain name, '@enum:<member>' (a MutationTypesEnum member) or
+    '@func:<module>/<name>' (a function object; saved as a class-path dict)"""
+    if isinstance(x, str) and x.startswith('@enum:'):
+        from golem.core.optimisers.genetic.operators.base_mutations import MutationTypesEnum
+        return MutationTypesEnum[x[6:]]
+    if isinstance(x, str) and x.startswith('@func:'):
+        m, nm = x[6:].split('/')
+        return getattr(importlib.import_module(m), nm)
+    return x
+
+
 class Synth:
     """builds a history from a JSON-able recipe:
     inds: list of dict(parents=[idx...], op=type or None, graph seed, fitness, meta, ng preset)
@@ -621,7 +676,7 @@ class Synth:
         for k, spec in enumerate(rc['inds']):
             po = None
             if spec.get('op'):
-                ops = spec.get('ops', ['op%d' % (k % 3)])
+                ops = [mk_operator(x) for x in spec.get('ops', ['op%d' % (k % 3)])]
                 po = ParentOperator(spec['op'], tuple(ops), tuple(inds[p] for p in spec['parents']))
             kw = {}
             if spec.get('ng') is not None:
@@ -683,6 +738,13 @@ def fixed_recipes():
     R.append(('archive recorded before the generations',
               {'inds': [{}, {'op': 'mutation', 'parents': [0]}], 'gens': [{'members': [0]}, {'members': [1]}], 'snaps': [[0], [1]],
                'steps': [('g', 0), ('s', 0), ('g', 1), ('s', 1)]}))
+    R.insert(4, ('operators recorded as enum members and function objects',
+                 {'inds': [{}, {'op': 'mutation', 'parents': [0], 'ops': ['@enum:single_add', '@func:golem.core.log/default_log']},
+                           {'op': 'crossover', 'parents': [0, 1], 'ops': ['@func:golem.core.adapter.adapt_registry/register_native',
+                                                                          '@func:golem.core.dag.graph_utils/nodes_from_layer',
+                                                                          '@func:golem.utilities.data_structures/ensure_wrapped_in_sequence', 'plain']}],
+                  'multi': True, 'metric_names': ['a', 'b'],
+                  'gens': [{'members': [0]}, {'members': [1, 2]}], 'snaps': [[0], [2]]}))
     # individuals recorded nowhere but as parents / in the archive
     R.append(('shared parent with native generation that is in no generation',
               {'inds': [{'ng': 0}, {'op': 'mutation', 'parents': [0]}, {'op': 'mutation', 'parents': [0]}],
@@ -745,15 +807,15 @@ def random_recipe(rng):
 # ----------------------------------------------------------------------------------------
 # legacy formats
 # ----------------------------------------------------------------------------------------
-def to_legacy_text(text, plain_lists, rename_paths=True):
+def to_legacy_text(text, plain_lists, variant='sub'):
     """rewrites a current-format save the way an older release wrote it: earlier class paths,
     key `individuals`, key `_is_multi_objective`, optionally generations as plain uid lists"""
     t = json.loads(text)
 
     def walk(x):
         if isinstance(x, dict):
-            if rename_paths and x.get('_class_path') in LEGACY_OF:
-                x['_class_path'] = LEGACY_OF[x['_class_path']]
+            if x.get('_class_path') in LEGACY_VARIANTS[variant]:
+                x['_class_path'] = LEGACY_VARIANTS[variant][x['_class_path']]
             for v in x.values():
                 walk(v)
         elif isinstance(x, list):
@@ -801,7 +863,7 @@ def check_legacy_tables(ctx):
     import re
     cls = list(ser_mod.LEGACY_CLASS_PATHS.items())
     mods = list(ser_mod.LEGACY_MODULE_PATHS.items())
-    paths = [k for k, _ in cls] + [v for _, v in cls] + list(LEGACY_OF.values()) + [
+    paths = [k for k, _ in cls] + [v for _, v in cls] + [l for v in LEGACY_VARIANTS.values() for l in v.values()] + [
         'fedot.core.optimisers.gp_comp.operators.mutation/Mutation', 'fedot.core.dag.graph/Graph',
         'fedot.core.optimisers.graph/OptNode', 'fedot.core.utilities.data_structures/UniqueList',
         'fedot.core.log/default_log', 'fedot.core.adapter.adapter/IdentityAdapter',
@@ -814,11 +876,19 @@ def check_legacy_tables(ctx):
     answers = re.findall(r'"([^"]*)"', txt.split('     : ')[0])
     if len(answers) != len(paths):
         raise CoqEvalError('cannot read the model resolution of the class paths: %s' % txt[-600:])
+    alias_of = {l: c for v in LEGACY_VARIANTS.values() for c, l in v.items()}
     for p, ans in zip(paths, answers):
         real = real_class(p)
         model = None
         if ans != 'NONE' and '|' in ans:
             model = import_object(*ans.split('|', 1))
+        if p in alias_of and (model is None or model is not import_object(*alias_of[p].split('/'))):
+            # the driver's own table of earlier names must be right according to the model
+            ctx.disagree('legacy-paths', {'path': p, 'current': alias_of[p], 'model': ans},
+                         'alias table of the driver: the earlier path does not denote the current class')
+        if p in alias_of and real is None:
+            ctx.violate('legacy-paths', {'path': p, 'current': alias_of[p]},
+                        'a class path written by an earlier release does not resolve: the object stays a plain dict')
         ctx.count('legacy-paths', key=p, nontrivial=p.startswith('fedot'), kind=('legacy' if p.startswith('fedot') else 'current'),
                   resolves=real is not None)
         if real is not model:
@@ -885,11 +955,12 @@ def evaluate(ctx, group, items):
         ctx.count(group, key=json.dumps(case, sort_keys=True, default=str), nontrivial=non_trivial(o), in_guard=guard,
                   intermediate=min(s['intermediate'], 5), generations=min(len(o['mem']['gens']), 8),
                   multi=o['mem']['obj']['multi'])
+        vc = dict(case, summary=s) if isinstance(case, dict) and 'legacy_variant' in case else {'recipe': case, 'summary': s}
         if not ag:
-            ctx.disagree(group, {'recipe': case, 'summary': s}, 'model and implementation differ (encode / decode / re-encode)')
+            ctx.disagree(group, vc, 'model and implementation differ (encode / decode / re-encode)')
         if not ho and guard:
             # (outside the guard - two live objects with one uid, uid strings as parents - the property does not apply)
-            ctx.violate(group, {'recipe': case, 'summary': s}, 'round trip does not preserve the history: ' + (
+            ctx.violate(group, vc, 'round trip does not preserve the history: ' + (
                 s['fitness_detail'] if not o['fitness_ok'] else (
                     ('saving the loaded history raises ' + o['resave_raised']) if o.get('resave_raised') else
                     ('re-saved text differs' if not o['text_equal'] else 'content or sharing differs'))))
@@ -1022,6 +1093,9 @@ def run(ctx):
                 text = f.read()
             h = OptHistory.load(text)
             o = observe(h, pre_text=text)
+        except TypeViolation as ex:
+            ctx.violate('legacy', {'file': fn}, 'stored legacy history is not restored: %s' % ex)
+            continue
         except ShapeError as ex:
             ctx.disagree('legacy', {'file': fn}, 'unexpected shape: %s' % ex)
             continue
@@ -1032,38 +1106,51 @@ def run(ctx):
             ctx.violate('legacy', {'file': fn}, 'stored legacy history does not load: %s: %s' % (type(ex).__name__, ex))
             continue
         items.append(('legacy file ' + fn, {'file': fn}, o))
-    # current saves rewritten to what earlier releases wrote
-    pick = [it for it in (real_items[:ctx.pick(4, 20)] + syn_items[:ctx.pick(8, 40)])]
-    for k, (desc, case, o0) in enumerate(pick):
-        plain = (k % 2 == 1)
-        mem = o0['mem']
-        if plain and (any(g['label'] or g['meta'] for g in mem['gens']) or [g['num'] for g in mem['gens']] != list(range(len(mem['gens'])))):
-            plain = False
-        ltext = to_legacy_text(o0['text'], plain)
-        try:
-            h = OptHistory.load(ltext)
-            if not isinstance(h, OptHistory):
-                raise ShapeError('load returned %r' % type(h))
-            o = observe(h, pre_text=ltext)
-        except ShapeError as ex:
-            ctx.disagree('legacy', {'rewritten': case}, 'unexpected shape: %s' % ex)
-            continue
-        except ImplRaised as ex:
-            ctx.violate('legacy', {'rewritten': case, 'plain_lists': plain}, 'history loaded from the earlier format: %s' % ex)
-            continue
-        except Exception as ex:
-            ctx.violate('legacy', {'rewritten': case, 'plain_lists': plain},
-                        'history written under earlier class paths does not load: %s: %s' % (type(ex).__name__, ex))
-            continue
-        # a history that came through the legacy path must be saved exactly as the current-format original
-        o['text_equal'] = o['text_equal'] and (o['text'] == o0['text'])
-        items.append(('rewritten to legacy (%s): %s' % ('plain lists' if plain else 'Generation objects', desc), {'legacy_of': case, 'plain': plain}, o))
+    # current saves rewritten to what earlier releases wrote, under both families of earlier class paths
+    pick = [it for it in (real_items[:ctx.pick(3, 16)] + syn_items[:ctx.pick(9, 40)])]
+    k = 0
+    for desc, case, o0 in pick:
+        for variant in ('sub', 'direct'):
+            k += 1
+            it = legacy_rewritten_case(ctx, desc, case, o0, variant, plain=(k % 3 == 0))
+            if it is not None:
+                items.append(it)
     evaluate(ctx, 'legacy', items)
     if items:
         ctx.sample(summary(items[0][2], items[0][0]))
 
     evaluate_dumps(ctx, dumps)
     check_legacy_tables(ctx)
+
+
+def legacy_rewritten_case(ctx, desc, case, o0, variant, plain):
+    """the current-format save o0['text'] rewritten to an earlier format -> load -> the usual chain.  The objects
+    must come back with their types (not as dicts) and the re-saved text must be the current-format original."""
+    mem = o0['mem']
+    if plain and (any(g['label'] or g['meta'] for g in mem['gens']) or [g['num'] for g in mem['gens']] != list(range(len(mem['gens'])))):
+        plain = False
+    ltext = to_legacy_text(o0['text'], plain, variant)
+    ident = {'recipe': case, 'legacy_variant': variant, 'plain': plain}
+    try:
+        h = OptHistory.load(ltext)
+        if not isinstance(h, OptHistory):
+            raise TypeViolation('load returned %s, not an OptHistory' % type(h).__name__)
+        o = observe(h, pre_text=ltext)
+    except TypeViolation as ex:
+        ctx.violate('legacy', ident, 'history written under earlier class paths (%s) is not restored: %s' % (variant, ex))
+        return None
+    except ShapeError as ex:
+        ctx.disagree('legacy', ident, 'unexpected shape: %s' % ex)
+        return None
+    except ImplRaised as ex:
+        ctx.violate('legacy', ident, 'history loaded from the earlier format (%s): %s' % (variant, ex))
+        return None
+    except Exception as ex:
+        ctx.violate('legacy', ident, 'history written under earlier class paths (%s) does not load: %s: %s' % (variant, type(ex).__name__, ex))
+        return None
+    # a history that came through the legacy path must be saved exactly as the current-format original
+    o['text_equal'] = o['text_equal'] and (o['text'] == o0['text'])
+    return ('rewritten to legacy (%s paths, %s): %s' % (variant, 'plain lists' if plain else 'Generation objects', desc), ident, o)
 
 
 def light_case(ctx, h, cfg):
@@ -1093,4 +1180,9 @@ def replay(ctx, payload):
     else:
         return
     o = observe(h)
+    if case.get('legacy_variant'):
+        it = legacy_rewritten_case(ctx, 'replay', rc, o, case['legacy_variant'], bool(case.get('plain')))
+        if it is not None:
+            evaluate(ctx, 'replay', [it])
+        return
     evaluate(ctx, 'replay', [('replay', rc, o)])
